@@ -63,6 +63,10 @@ enum Verdict {
     Either,
 }
 
+thread_local! {
+    static ATTEMPT_NO: std::cell::Cell<u64> = const { std::cell::Cell::new(0) };
+}
+
 /// 20-line reference of the identification rule.
 fn reference(file: &[u8], reserved: usize, mode: OpenMode, exp_fl: Freelist, exp_magic: u16) -> Verdict {
     let prefix = ((reserved + 7) & !7) + 8 + 24;
@@ -85,10 +89,28 @@ fn reference(file: &[u8], reserved: usize, mode: OpenMode, exp_fl: Freelist, exp
     Verdict::MustSucceed
 }
 
-fn try_open(flavour: Flavour, path: &str, reserved: u32, mode: OpenMode, fl: Freelist, magic: u16, cap: Option<u32>) -> Result<(), String> {
+/// `flags`: bit0 create, bit1 truncate, bit2 append, bit3 write, bit4 create_new.  Writable opens only get
+/// bit0 (the file exists, so `create` must not make a difference); read-only opens get any combination —
+/// they are documented to ignore all of them.
+fn try_open(flavour: Flavour, path: &str, reserved: u32, mode: OpenMode, fl: Freelist, magic: u16, cap: Option<u32>, flags: u8) -> Result<(), String> {
     let mut o = Options::new().with_reserved(reserved).with_freelist(fl).with_magic_version(magic).with_read(true);
     if let Some(c) = cap {
         o = o.with_capacity(c);
+    }
+    if flags & 1 != 0 {
+        o = o.with_create(true);
+    }
+    if flags & 2 != 0 {
+        o = o.with_truncate(true);
+    }
+    if flags & 4 != 0 {
+        o = o.with_append(true);
+    }
+    if flags & 8 != 0 {
+        o = o.with_write(true);
+    }
+    if flags & 16 != 0 {
+        o = o.with_create_new(true);
     }
     macro_rules! go {
         ($A:ty) => {{
@@ -123,9 +145,34 @@ fn attempt(out: &mut Out, seed: &Seed, content: &[u8], what: &str, mode: OpenMod
     std::fs::write(&path, content).expect("write mutated file");
     let verdict = reference(content, seed.cfg.reserved as usize, mode, exp_fl, exp_magic);
     out.inc("c09_open_attempts");
-    let r = std::panic::catch_unwind(|| try_open(opener, &path, seed.cfg.reserved, mode, exp_fl, exp_magic, cap));
+    let att = ATTEMPT_NO.with(|a| {
+        let v = a.get();
+        a.set(v + 1);
+        v
+    });
+    let writable_mode = matches!(mode, OpenMode::MapMut | OpenMode::MapCopy);
+    let flags: u8 = if att % 3 != 0 {
+        0
+    } else if writable_mode {
+        1
+    } else {
+        let f = (mix(att, 0xF1A6) % 31 + 1) as u8;
+        f
+    };
+    // a file that must be refused is also opened with a capacity smaller than the file (the refusal must
+    // not shrink it either)
+    let cap = if matches!(verdict, Verdict::MustFail) && att % 4 == 1 && content.len() > 16 {
+        out.inc("c09_refusals_with_capacity_below_file_length");
+        Some((content.len() / 2) as u32)
+    } else {
+        cap
+    };
+    if flags != 0 {
+        out.inc(if writable_mode { "c09_writable_opens_with_create_flag" } else { "c09_readonly_opens_with_stray_flags" });
+    }
+    let r = std::panic::catch_unwind(|| try_open(opener, &path, seed.cfg.reserved, mode, exp_fl, exp_magic, cap, flags));
     let after = std::fs::read(&path).unwrap_or_default();
-    let detail = |msg: String| crate::jobj!("mutation" => what, "mode" => format!("{:?}", mode), "expected_freelist" => format!("{:?}", exp_fl), "expected_magic" => exp_magic, "capacity_option" => format!("{:?}", cap), "opened_by" => format!("{:?}", opener), "file_written_by" => format!("{:?}", seed.cfg.flavour), "reserved" => seed.cfg.reserved, "file_len" => content.len(), "message" => msg);
+    let detail = |msg: String| crate::jobj!("mutation" => what, "mode" => format!("{:?}", mode), "expected_freelist" => format!("{:?}", exp_fl), "expected_magic" => exp_magic, "capacity_option" => format!("{:?}", cap), "opened_by" => format!("{:?}", opener), "file_written_by" => format!("{:?}", seed.cfg.flavour), "reserved" => seed.cfg.reserved, "file_len" => content.len(), "open_flags(create=1,truncate=2,append=4,write=8,create_new=16)" => flags as u64, "message" => msg);
     let r = match r {
         Err(_) => {
             let (loc, msg) = crate::seq::LAST_PANIC.with(|p| p.borrow().clone());
